@@ -9,7 +9,10 @@ import (
 	"strconv"
 	"strings"
 	"sync"
+	"sync/atomic"
+	"syscall"
 	"testing"
+	"time"
 	"testing/synctest"
 
 	"verifharness/kit"
@@ -142,10 +145,69 @@ type rec struct {
 	Sample       interface{}            `json:"sample,omitempty"`
 	Panic        string                 `json:"panic,omitempty"`
 	Extra        map[string]interface{} `json:"extra,omitempty"`
+	Ms           int64                  `json:"ms,omitempty"`
+}
+
+// Stall watchdog (real time, outside every bubble).  A synctest bubble whose
+// clock cannot advance burns no CPU and never ends: that happens when a
+// goroutine sits in a virtual sleep while another one is blocked on a
+// sync.Mutex (not a durable block), e.g. when the library under test guards
+// its state with a mutex and the harness injects a virtual delay into a
+// collaborator called under it.  The watchdog ends the process with a
+// goroutine dump; the driver records the case as INCONCLUSIVE (never as a
+// violation: the dump cannot tell a library hang from this artefact).
+var (
+	stallCase  atomic.Value // string
+	stallStart atomic.Int64 // unix nanos, 0 = no case running
+)
+
+func cpuSeconds() float64 {
+	var ru syscall.Rusage
+	if syscall.Getrusage(syscall.RUSAGE_SELF, &ru) != nil {
+		return 0
+	}
+	return float64(ru.Utime.Sec+ru.Stime.Sec) + float64(ru.Utime.Usec+ru.Stime.Usec)/1e6
+}
+
+func stallWatchdog(idleAfter, hard time.Duration) {
+	type sample struct {
+		at  time.Time
+		cpu float64
+	}
+	var hist []sample
+	for {
+		time.Sleep(time.Second)
+		now := time.Now()
+		hist = append(hist, sample{now, cpuSeconds()})
+		if len(hist) > 61 {
+			hist = hist[1:]
+		}
+		st := stallStart.Load()
+		if st == 0 {
+			continue
+		}
+		el := now.Sub(time.Unix(0, st))
+		idle := len(hist) == 61 && hist[60].cpu-hist[0].cpu < 0.2
+		if (el > idleAfter && idle) || el > hard {
+			id, _ := stallCase.Load().(string)
+			fmt.Fprintf(os.Stderr, "\nVERIF-STALL case=%s elapsed=%s cpu_last_60s=%.2fs\n", id, el.Round(time.Second), hist[len(hist)-1].cpu-hist[0].cpu)
+			fmt.Fprintln(os.Stderr, kit.DumpAll())
+			os.Exit(3)
+		}
+	}
 }
 
 func runCase(t *testing.T, c Case) (res *Res, panicText string) {
 	res = newRes()
+	kit.TakeCores()
+	defer func() {
+		for _, core := range kit.TakeCores() {
+			if n := core.Seq(); n > 0 {
+				res.Set("signatures", strconv.FormatUint(core.Signature(), 16))
+				res.Add("perturbation-points-executed", int64(n))
+			}
+		}
+	}()
 	defer func() {
 		if p := recover(); p != nil {
 			panicText = fmt.Sprint(p)
@@ -261,6 +323,11 @@ func TestEngine(t *testing.T) {
 			mine = append(mine, c)
 		}
 	}
+	idleAfter, hard := 120*time.Second, 45*time.Minute
+	if v, err := strconv.Atoi(os.Getenv("VERIF_STALL_S")); err == nil && v > 0 {
+		idleAfter = time.Duration(v) * time.Second
+	}
+	go stallWatchdog(idleAfter, hard)
 	emit(rec{T: "batch-start", Idx: len(mine), Extra: map[string]interface{}{"total": len(all), "engine": name, "tier": tier, "seed": seed}})
 	for rep := 0; rep < repeat; rep++ {
 		for i, c := range mine {
@@ -269,8 +336,12 @@ func TestEngine(t *testing.T) {
 			}
 			emit(rec{T: "start", ID: c.ID, Idx: i, Desc: c.Desc})
 			Hint("")
+			stallCase.Store(c.ID)
+			t0 := time.Now()
+			stallStart.Store(t0.UnixNano())
 			res, ptxt := runCase(t, c)
-			r := rec{T: "end", ID: c.ID, Idx: i, Viol: res.Viol, Obs: res.Obs, Keys: res.Keys, Count: res.Count,
+			stallStart.Store(0)
+			r := rec{T: "end", ID: c.ID, Idx: i, Ms: time.Since(t0).Milliseconds(), Viol: res.Viol, Obs: res.Obs, Keys: res.Keys, Count: res.Count,
 				Evals: res.Evals, Inconclusive: res.Inconclusive, Sample: res.Sample, Panic: ptxt}
 			if r.Evals == 0 {
 				r.Evals = 1
